@@ -729,7 +729,7 @@ Definition op_dom (st : rstate) (o : op) : bool :=
   | OBit _ n => (0 <=? n) && (n <? 4194304)
   | OLStruct h i | OPLAt h i | OBitAt h i => in_len st h i
   | OUintAt h i n => in_len st h i && in_width n
-  | ORoot | OText _ | OData _ | OInfo _ | ORLimit | OWalk _ _ _ _ => true
+  | ORoot | OText _ | OData _ | OInfo _ | ORLimit | OWalk _ _ _ _ | OReset _ => true
   end.
 
 Fixpoint run_dom (c : config) (fx : fixes) (m : segs) (st : rstate) (ops : list op) : bool :=
@@ -816,6 +816,8 @@ Proof.
     pose proof (walk_safe c fx m dcap pcap Hm Hst Hfb (Z.to_nat fuel) (rs_rl st) (Ok (handle st h)) (Hh h)) as H.
     destruct (walk c fx m dcap pcap (Z.to_nat fuel) (rs_rl st) (Ok (handle st h))) as [t rl]. cbn [fst snd] in *.
     split; [exact Hwf|exact H].
+  - (* reset: the handle pool is emptied *)
+    split; [constructor|]. cbn [snd oval_ok]. discriminate.
 Qed.
 
 (* All read-side API call sequences: no observation is a panic and every handle ever
